@@ -93,6 +93,42 @@ def _one(args):
     return res
 
 
+def _chain(chunk):
+    """the battles of neighbouring versions parsed one after the other in one process (a version must stay consistent whatever was loaded before it)"""
+    out = []
+    prev = None
+    for game, version in chunk:
+        tag = '%s/%s' % (game, version)
+        b, exp, err = battlecheck.make_battle(game, version, 0, rich=True)
+        if b is None:
+            continue
+        path = battlecheck.write_battle(b, 'c10chain')
+        try:
+            hidden, err = battlecheck.parse_strict(path)
+        finally:
+            os.unlink(path)
+        out.append((tag, prev, err if (err or hidden is None) else None, hidden is None))
+        prev = tag
+    return out
+
+
+def part_chains(chk, versions, alone_bad):
+    chunks = []
+    for g in battlecheck.GAMES:
+        vs = [x for x in versions if x[0] == g]
+        step = 6
+        for i in range(0, len(vs), step - 1):
+            c = vs[i:i + step]
+            if len(c) >= 2:
+                chunks += [c, list(reversed(c))]
+    for res in common.pmap(_chain, chunks):
+        for tag, prev, err, nohidden in res:
+            chk.dist('battles:chained')
+            if (err or nohidden) and prev is not None and tag not in alone_bad:
+                chk.report('%s: a complete battle does not parse in strict mode after %s was parsed in the same process: %s' % (tag, prev, err),
+                           {'kind': 'battle-after', 'version': tag, 'after': prev, 'error': err}, key='%s:battle-after:%s' % (tag, prev))
+
+
 def run(chk, drv):
     versions = battlecheck.version_dirs()
     chk.cov['rule'] = ('exhaustive: every bundled version directory x every subscription its controller registers; one complete random battle per '
@@ -134,6 +170,7 @@ def run(chk, drv):
             chk.dist('battles')
             if r['battle']['differences']:
                 chk.notes.append('%s: summary differs from the generated events (decided by C09): %s' % (tag, json.dumps(r['battle']['differences'])[:300]))
+    part_chains(chk, versions, {'%s/%s' % (r['game'], r['version']) for r in results if r['problems']})
     chk.cov['exhaustive'] = True
     chk.cov['versions'] = n_versions
 
